@@ -49,8 +49,15 @@ func c08Scenarios(cfg runCfg) []Scenario {
 func genMachine(r *rng, failDen int) Step {
 	st := Step{Op: "repeat", Shared: r.chance(1, 3)}
 	na := r.between(1, 6)
+	checkNamed := -1
+	if r.chance(1, 4) {
+		checkNamed = r.intn(na) // in a hand-built map "Check" is an action name like any other (the invariant is "")
+	}
 	for i := 0; i < na; i++ {
 		a := Action{Name: fmt.Sprintf("A%d", i)}
+		if i == checkNamed {
+			a.Name = "Check"
+		}
 		switch r.intn(5) {
 		case 0:
 			a.Steps = append(a.Steps, Step{Op: "skipif", Pred: Pred{Typ: "ctr", K: int64(r.between(2, 30))}})
@@ -188,6 +195,9 @@ func judgeTrace(inv *Inv, names map[string]bool, hasInv bool) string {
 	if expectCheck && started && !dead && inv.Returned {
 		return fmt.Sprintf("no invariant check after the last completed action (tail %v)", tail(inv.Trace, 6))
 	}
+	if hasInv && !started && inv.Returned && inv.repeatCalled {
+		return "Repeat returned without having run the invariant once (no action ran either)"
+	}
 	return ""
 }
 
@@ -300,7 +310,10 @@ func c08Run(t *testing.T, sc Scenario, res *Result) {
 		for _, a := range m.Acts {
 			names[a.Name] = true
 		}
-		steps := pick(r, []int{1, 3, 10, 30, 100})
+		steps := pick(r, []int{0, 1, 3, 10, 30, 100})
+		if sc.Family == "stuck" && steps == 0 {
+			steps = 1 // with no steps at all a stuck machine is never noticed (and need not be)
+		}
 		check := func(invs []*Inv, tbBrief []string) {
 			for _, inv := range invs {
 				if inv.trimmed {
@@ -335,6 +348,32 @@ func c08Run(t *testing.T, sc Scenario, res *Result) {
 				}
 			}
 		}
+		neverRan := func(invs []*Inv) {
+			// every supplied action is selected sooner or later (at most 6 actions, hundreds of attempts)
+			seen := map[string]int{}
+			total := 0
+			for _, inv := range invs {
+				if inv.phase() != "generate" {
+					continue // minimisation candidates select the first action over and over
+				}
+				for _, e := range inv.Trace {
+					if strings.HasPrefix(e, "act> ") {
+						seen[strings.TrimPrefix(e, "act> ")]++
+						total++
+					}
+				}
+			}
+			if total < 600 {
+				return
+			}
+			for n := range names {
+				if seen[n] == 0 {
+					res.violate(sc, "c08/action-never-ran", fmt.Sprintf("the supplied action %q was never executed in %d action attempts (other actions: %v)", n, total, seen), map[string]any{"program": p.Desc})
+					return
+				}
+			}
+			res.inc("machines_all_actions_seen")
+		}
 		if sc.Family == "fuzz" {
 			lg := &Log{keepAll: true}
 			fz := rapid.MakeFuzz(lg.prop(p.body()))
@@ -355,6 +394,7 @@ func c08Run(t *testing.T, sc Scenario, res *Result) {
 		res.inc("checks_run")
 		rp := parseReport(tb)
 		check(lg.Invs, tb.brief())
+		neverRan(lg.Invs)
 		if sc.Family == "stuck" {
 			// every invocation in which the machine got stuck must have ended in a failure after a bounded number of attempts
 			stuckSeen := false
